@@ -25,7 +25,7 @@ CHECKS = [
     },
     {
         'property_id': 'C06', 'level': 'exploration', 'design_ref': 'DESIGN.md 4 C06',
-        'technique': 'runtime monitoring: model-based oracle over observed writer->reader round trips (random call sequences, all versions)',
+        'technique': 'runtime monitoring: model-based oracle over observed writer->reader round trips (random call sequences, all versions); icontract postconditions/invariants on Reader, Writer and devices under the repository tests and the generated workload as a second oracle',
         'text': 'Random writer call sequences (segments from 0 to the top of the address space, zero tails around the dense/lazy '
                 'threshold, shared data, boundary word values, deliberate flaws) are replayed on versions 0-3 and lzma presets; '
                 'the reader result must equal a 30-line model of what the calls mean (segments, words, invalidity outside), a '
